@@ -70,7 +70,7 @@ class C23(Prop):
     SHARD_TIMEOUT = 2400
     COQ_SHARD = 35
     LEVEL_TEXT = (
-        "Coq theorems (17, closed under the global context) over a byte-level model of the async tar reader "
+        "Coq theorems (19, closed under the global context) over a byte-level model of the async tar reader "
         "(TellableStreamWrapper.read, SeekableStreamReaderWrapper.seek, FileStreamReaderWrapper.read, copyfileobj/"
         "write, header parsing incl. checksum, octal fields, ustar prefix and GNU long names, AioTarStream.next, "
         "extract_tar_stream): outcome and destination tree depend only on the concatenation of the chunks (any two "
